@@ -89,13 +89,14 @@ type ExploreStats struct {
 	Complete     bool // the whole tree (within MaxBound) was explored
 	Unbounded    bool // no branch was cut by the preemption bound: all interleavings covered
 	Outcomes     map[string]int
-	Violation    *Violation
+	Violations   []*Violation // one per distinct key, in order of discovery
 	Elapsed      time.Duration
 	TimedOut     bool
 }
 
 // Violation is a failing execution with its replayable schedule.
 type Violation struct {
+	Key      string
 	Schedule []int
 	Message  string
 	Result   *Result
@@ -107,10 +108,11 @@ type ExploreConfig struct {
 	Deadline time.Time
 	Prune    bool // happens-before fingerprint pruning (requires Options.TrackHB in run)
 	// Run executes one schedule under the given strategy and returns an
-	// outcome label and, if the property is violated, a non-empty message.
-	Run func(s Strategy) (res *Result, outcome string, violation string)
-	// Shard/Shards split the first-level subtrees across processes.
-	Shard, Shards int
+	// outcome label and, if the property is violated, a violation key and message.
+	Run func(s Strategy) (res *Result, outcome string, key string, message string)
+	// MaxViolations bounds the number of distinct violation keys collected (default 8);
+	// exploration continues after a violation so that a known finding cannot hide a new one.
+	MaxViolations int
 }
 
 type pruneKey struct {
@@ -122,17 +124,27 @@ type pruneKey struct {
 func Explore(cfg ExploreConfig) *ExploreStats {
 	st := &ExploreStats{Outcomes: map[string]int{}, BoundDone: -1}
 	start := time.Now()
-	if cfg.Shards == 0 {
-		cfg.Shards = 1
+	if cfg.MaxViolations == 0 {
+		cfg.MaxViolations = 8
 	}
 	states := map[uint64]struct{}{}
-	for bound := 0; bound <= cfg.MaxBound; bound++ {
+	vkeys := map[string]bool{}
+	// bounds 0,1,2 first (the first counterexample then has the fewest
+	// preemptions), then straight to MaxBound
+	var bounds []int
+	for b := 0; b <= cfg.MaxBound && b <= 2; b++ {
+		bounds = append(bounds, b)
+	}
+	if cfg.MaxBound > 2 {
+		bounds = append(bounds, cfg.MaxBound)
+	}
+	for _, bound := range bounds {
 		seen := map[pruneKey]int{}
 		cut := false
-		ex := &explorer{cfg: cfg, st: st, bound: bound, seen: seen, states: states, cut: &cut}
+		ex := &explorer{cfg: cfg, st: st, bound: bound, seen: seen, states: states, cut: &cut, vkeys: vkeys}
 		ex.explore(nil, 0, 0)
 		st.States = len(states)
-		if st.Violation != nil || st.TimedOut {
+		if st.TimedOut || ex.fatal {
 			break
 		}
 		st.BoundDone = bound
@@ -156,13 +168,15 @@ type explorer struct {
 	seen   map[pruneKey]int
 	states map[uint64]struct{}
 	cut    *bool
+	vkeys  map[string]bool
+	fatal  bool
 }
 
 // explore runs the schedule prefix+default and recurses into every
 // alternative at decisions after the prefix. cost0 is the number of
 // preemptions inside the prefix.
 func (x *explorer) explore(prefix []int, cost0 int, depth int) {
-	if x.st.Violation != nil || x.st.TimedOut {
+	if x.fatal || x.st.TimedOut {
 		return
 	}
 	if !x.cfg.Deadline.IsZero() && time.Now().After(x.cfg.Deadline) {
@@ -170,7 +184,7 @@ func (x *explorer) explore(prefix []int, cost0 int, depth int) {
 		return
 	}
 	rp := &Replay{Prefix: prefix}
-	res, outcome, viol := x.cfg.Run(rp)
+	res, outcome, key, viol := x.cfg.Run(rp)
 	x.st.Executions++
 	x.st.Points += int64(len(rp.Trace))
 	if len(rp.Trace) > x.st.MaxDecisions {
@@ -181,13 +195,18 @@ func (x *explorer) explore(prefix []int, cost0 int, depth int) {
 		if msg == "" {
 			msg = res.Divergence
 		}
-		x.st.Violation = &Violation{Schedule: rp.Choices(), Message: "UNREPRODUCIBLE: " + msg, Result: res}
+		x.st.Violations = append(x.st.Violations, &Violation{Key: "UNREPRODUCIBLE", Schedule: rp.Choices(), Message: "UNREPRODUCIBLE: " + msg, Result: res})
+		x.fatal = true
 		return
 	}
-	x.st.Outcomes[outcome]++
-	if viol != "" {
-		x.st.Violation = &Violation{Schedule: rp.Choices(), Message: viol, Result: res}
-		return
+	if len(x.st.Outcomes) < 4096 || x.st.Outcomes[outcome] > 0 {
+		x.st.Outcomes[outcome]++
+	}
+	if key != "" {
+		if !x.vkeys[key] && len(x.vkeys) < x.cfg.MaxViolations {
+			x.vkeys[key] = true
+			x.st.Violations = append(x.st.Violations, &Violation{Key: key, Schedule: rp.Choices(), Message: viol, Result: res})
+		}
 	}
 	trace := rp.Trace
 	// preemptions before decision i
@@ -203,12 +222,6 @@ func (x *explorer) explore(prefix []int, cost0 int, depth int) {
 			if altCost > x.bound {
 				*x.cut = true
 				continue
-			}
-			if depth == 0 && i == firstBranch(trace, len(prefix)) && x.cfg.Shards > 1 {
-				// shard the first branching decision's alternatives
-				if alt%x.cfg.Shards != x.cfg.Shard {
-					continue
-				}
 			}
 			if x.cfg.Prune && !c.Pick {
 				k := pruneKey{c.FP, c.TID[alt]}
@@ -226,19 +239,10 @@ func (x *explorer) explore(prefix []int, cost0 int, depth int) {
 			np[i] = alt
 			x.st.Transitions++
 			x.explore(np, altCost, depth+1)
-			if x.st.Violation != nil || x.st.TimedOut {
+			if x.fatal || x.st.TimedOut {
 				return
 			}
 		}
 		// the default continuation (choice 0) costs nothing
 	}
-}
-
-func firstBranch(trace []Choice, from int) int {
-	for i := from; i < len(trace); i++ {
-		if trace[i].N > 1 {
-			return i
-		}
-	}
-	return -1
 }
